@@ -19,7 +19,7 @@ PROPERTY = 'C16'
 RULE = ('matrix: every /v1/peer/ rule x {GET,HEAD,POST,PUT,DELETE,PATCH,OPTIONS} x {no credentials, wrong user, wrong password, '
         'empty password, prefix / longer / other case, empty user, swapped, right; a second configured account} x {Idle-fresh, Idle-stopped, Connect, OpenSent, OpenConfirm, Established} x {valid, empty, '
         'malformed} body; sends: generated UPDATE requests (IPv4 + standard attributes, IPv6 unicast, VPNv4), route-refresh '
-        'and bin_update requests on eBGP / iBGP sessions in 4- and 2-octet-AS mode, with [bgp] rib on / off and 0-2 earlier '
+        'and bin_update requests on eBGP / iBGP sessions in 4- and 2-octet-AS mode, hold time 180 / 3 / 0, with [bgp] rib on / off and 0-2 earlier '
         'announcements on the same session whose prefixes the checked request may withdraw or re-announce, plus the enumerated grid session kind x '
         'LOCAL_PREF {absent,0,1,100,2^31,2^32-1} x MED x shape for the default-LOCAL_PREF rule. '
         'Non-trivial = request hits a state-changing or sending endpoint or uses wrong-but-well-formed credentials; '
@@ -62,8 +62,8 @@ def valid_body(rule):
     return None
 
 
-def make_state(name, ibgp=False, as4=True, rib=False, account=None):
-    kw = dict(hold_time=180, idle_hold_time=30, rib=rib)
+def make_state(name, ibgp=False, as4=True, rib=False, account=None, hold=180):
+    kw = dict(hold_time=hold, idle_hold_time=30, rib=rib)
     if account:
         kw['username'], kw['password'] = account
     if ibgp:
@@ -184,6 +184,7 @@ def send_request(draw):
     from vlib.props.c06 import as_path, community_in, prefix_list
     ibgp = draw(st.booleans())
     as4 = draw(st.sampled_from([True, True, False]))
+    hold = draw(st.sampled_from([180, 180, 0, 3]))      # configured hold time of the session (0: no timers at all)
     shape = draw(st.sampled_from(['announce', 'announce', 'withdraw', 'both', 'v6', 'vpn4', 'rr', 'bin']))
     req = {}
     if shape == 'rr':
@@ -191,11 +192,11 @@ def send_request(draw):
                'res': draw(st.sampled_from([0, 0, 1, 255]))}
         if draw(st.booleans()):
             del req['res']
-        return {'ibgp': ibgp, 'as4': as4, 'shape': shape, 'req': req}
+        return {'ibgp': ibgp, 'as4': as4, 'hold': hold, 'shape': shape, 'req': req}
     if shape == 'bin':
         n = draw(st.integers(1, 3))
         data = b''.join(ss.marked_update(draw(st.integers(0, 60000)))[0] for _ in range(n))
-        return {'ibgp': ibgp, 'as4': as4, 'shape': shape, 'req': {'hex': data.hex()}}
+        return {'ibgp': ibgp, 'as4': as4, 'hold': hold, 'shape': shape, 'req': {'hex': data.hex()}}
     if shape in ('announce', 'both'):
         a = {'1': draw(st.integers(0, 2)), '2': draw(as_path(as4)), '3': draw(vs.ipv4_host)}
         for c in draw(st.sets(st.sampled_from([4, 5, 6, 7, 8, 9, 10, 16, 32]), max_size=5)):
@@ -242,12 +243,12 @@ def send_request(draw):
                                                            'nlri': draw(st.lists(st.fixed_dictionaries({
                                                                'prefix': vs.prefix4(), 'rd': vs.rd_text(),
                                                                'label': st.lists(vs.label, min_size=1, max_size=1)}), min_size=1, max_size=3))}}
-    return {'ibgp': ibgp, 'as4': as4, 'rib': rib, 'pre': pre, 'shape': shape, 'req': req}
+    return {'ibgp': ibgp, 'as4': as4, 'hold': hold, 'rib': rib, 'pre': pre, 'shape': shape, 'req': req}
 
 
 def other_send_case(case):
     """route-refresh and bin_update: a success reply means exactly that message is on the wire"""
-    sim = make_state('ESTABLISHED', ibgp=case['ibgp'], as4=case.get('as4', True))
+    sim = make_state('ESTABLISHED', ibgp=case['ibgp'], as4=case.get('as4', True), hold=case.get('hold', 180))
     c = ss.live_connectors(sim)[-1]
     mark = sim.mark()
     out = []
@@ -283,7 +284,7 @@ def send_case(case):
         return other_send_case(case)
     ibgp, req = case['ibgp'], case['req']
     as4 = case.get('as4', True)
-    sim = make_state('ESTABLISHED', ibgp=ibgp, as4=as4, rib=case.get('rib', False))
+    sim = make_state('ESTABLISHED', ibgp=ibgp, as4=as4, rib=case.get('rib', False), hold=case.get('hold', 180))
     c = ss.live_connectors(sim)[-1]
     # earlier requests on the same session (they fill the agent's Adj-RIB-Out when [bgp] rib is on)
     for pre in case.get('pre') or []:
@@ -383,7 +384,8 @@ def run_shard(spec, seed, col, tier):
     if spec['kind'] == 'sendgrid':
         # the default-LOCAL_PREF rule, enumerated: session kind x LOCAL_PREF x MED boundary values x shape
         absent = None
-        for ibgp, as4 in ((False, True), (True, True), (True, False), (False, False)):
+        for ibgp, as4, hold in ((False, True, 180), (True, True, 180), (True, False, 180), (False, False, 180), (True, True, 0),
+                                (False, True, 0)):
             for lp in (absent, 0, 1, 100, 2 ** 31, 2 ** 32 - 1):
                 for med in (absent, 0, 2 ** 32 - 1):
                     for shape in ('announce', 'both', 'withdraw'):
@@ -398,7 +400,7 @@ def run_shard(spec, seed, col, tier):
                             req['nlri'] = ['10.1.0.0/16', '10.2.3.0/24']
                         if shape != 'announce':
                             req['withdraw'] = ['10.9.0.0/16']
-                        case = {'ibgp': ibgp, 'as4': as4, 'shape': shape, 'req': req}
+                        case = {'ibgp': ibgp, 'as4': as4, 'hold': hold, 'shape': shape, 'req': req}
                         res = send_case(case)
                         case = dict(case, k='send')
                         col.case(case, True, labels=['send-grid', 'ibgp:%s' % ibgp])
@@ -409,7 +411,7 @@ def run_shard(spec, seed, col, tier):
     def body(case):
         res = send_case(case)
         case = dict(case, k='send')
-        col.case(case, True, labels=['send', 'shape:' + case['shape'], 'ibgp:%s' % case['ibgp'], 'as4:%s' % case.get('as4', True), 'rib:%s' % case.get('rib', False), 'earlier-requests:%d' % len(case.get('pre') or [])])
+        col.case(case, True, labels=['send', 'shape:' + case['shape'], 'ibgp:%s' % case['ibgp'], 'as4:%s' % case.get('as4', True), 'rib:%s' % case.get('rib', False), 'hold:%s' % case.get('hold', 180), 'earlier-requests:%d' % len(case.get('pre') or [])])
         for sig, detail in res:
             col.fail(sig, case, detail)
     hyp_run(col, send_request(), body, seed, spec['examples'])
